@@ -74,6 +74,9 @@ def near_pairs(draw, max_nm, maxabs=90.0):
 TIMES = st.one_of(
     st.sampled_from([(0, 1), (1, 0), (5, 5), (1000.0, 1000.5), (1000.5, 1000.0), (0, 9.99), (9, 0), (10.25, 10.75), (10.75, 10.25), (7.000001, 7.0)]),
     st.tuples(gen.uint(0, 10 ** 6), gen.uint(0, 10 ** 6)),
+    # integer stamps too large for a double to tell apart (nanoseconds since 1970, counters): one tick apart, either order
+    st.sampled_from([(2 ** 60 + 1, 2 ** 60), (2 ** 60, 2 ** 60 + 1), (1700000000123456789, 1700000000123456790), (1700000000123456790, 1700000000123456789),
+                     (2 ** 53 + 1, 2 ** 53), (2 ** 53, 2 ** 53 + 1)]),
 )
 
 
@@ -89,7 +92,7 @@ _time.tzset()
 def as_time(t, mode):
     """The decoders document int or datetime time stamps.  mode 0/False: number; 1/True: naive datetime; 2: naive datetimes in the hour that
     does not exist on 2024-03-31 in the pinned zone (02:59:5x ... 03:00:0x), where local-time conversions are not monotone."""
-    if not mode:
+    if not mode or (isinstance(t, int) and t > 10 ** 9 and mode in (1, 2)):
         return t
     if mode in (3, 4):  # time stamps taken from a numpy array / a pandas column (mode 4: an unsigned column where the value allows it)
         import numpy as np
@@ -104,7 +107,7 @@ def as_time(t, mode):
 
 def time_key(t, mode):
     """the ordering the property talks about: the stamps themselves"""
-    return t % 10.0 if mode == 2 else t
+    return t % 10.0 if mode == 2 and not (isinstance(t, int) and t > 10 ** 9) else t
 
 
 def round_position(draw, par, surface):
